@@ -8,6 +8,7 @@ structure St where
   st : State
   now : Int
   last : Option Cert := none     -- the leaf most recently served by `get`/`hs` (ops `vhl`, `vwl`)
+  signOk : Bool := true          -- op `signfail on|off`: does the CA key's Sign succeed
 
 /-- Defaults of `mitm.NewConfig`: one hour, "Martian Proxy". The clock starts mid-second. -/
 def init : St := { cfg := { validity := 3600000, org := strBytes "Martian Proxy" }, st := {}, now := 1700000000400 }
@@ -35,7 +36,7 @@ certificate for its own host; the harness identifies the certificates issued for
 op, so the sequential order is the canonical schedule. -/
 def concOp (s : St) (hosts : List Bytes) : St × List Outcome :=
   hosts.foldl (fun (acc : St × List Outcome) h =>
-    let r := getCertForHost acc.1.cfg h [] acc.1.now acc.1.st
+    let r := getCertForHostS acc.1.cfg h [] acc.1.now acc.1.signOk acc.1.st
     ({ acc.1 with st := r.1 }, acc.2 ++ [r.2])) (s, [])
 
 def lastOf (o : Outcome) (prev : Option Cert) : Option Cert :=
@@ -59,10 +60,10 @@ def doGet (s : St) (op mode fb sni : String) (now : Int) : St × String :=
     if !(inModel fbb && inModel snb) then (s, "out-of-model") else
     let pre := if op = "hs" then "hs " else ""
     if mode = "tls" then
-      let r := getCertTLS s.cfg snb now s.st
+      let r := getCertTLSS s.cfg snb now s.signOk s.st
       ({ s with st := r.1, now := now, last := lastOf r.2 s.last }, pre ++ showOutcome s.st.next r.2)
     else if mode = "host" then
-      let r := getCertForHost s.cfg fbb snb now s.st
+      let r := getCertForHostS s.cfg fbb snb now s.signOk s.st
       ({ s with st := r.1, now := now, last := lastOf r.2 s.last }, pre ++ showOutcome s.st.next r.2)
     else (s, "bad-op")
   | _, _ => (s, "bad-op")
@@ -106,6 +107,10 @@ def step (s : St) (toks : List String) : St × String :=
   | ["h2", _] => (s, "ok")        -- SetH2Config: ALPN only
   | ["sleep", _] => (s, "ok")     -- real time passes; realtime cases carry the clock in the next op
   | ["realtime"] => (s, "ok")
+  | ["signfail", v] =>
+    if v = "on" then ({ s with signOk := false }, "ok")
+    else if v = "off" then ({ s with signOk := true }, "ok")
+    else (s, "bad-op")
   | ["conc", hs] =>
     match unhexList hs with
     | some hosts =>
